@@ -182,3 +182,8 @@ def generate(ctx):
             ctx.case('call', case, sd['n'] >= 2, tags=['rank:%d' % sd['n'], 'call:' + call, 'obj:solved']); suite_call(ctx, case)
         case = {'sys': sd, 'obj': obj}
         ctx.case('selfconsistent', case, True, tags=['rank:%d' % sd['n']]); suite_selfconsistent(ctx, case)
+    # solved objects whose converged g(r) is negative somewhere (MSA with a strongly repulsive tail): S(k) vs C(k) must still hold
+    for q in range(ctx.n(3, 12)):
+        sd = C01.gen_negative_g(rng)
+        case = {'sys': sd, 'obj': ['solved', rng.choice(['krylov', 'broyden1', 'anderson'])]}
+        ctx.case('selfconsistent', case, True, tags=['rank:1', 'negative-g']); suite_selfconsistent(ctx, case)
